@@ -352,21 +352,7 @@ impl Check for C18 {
         cov.insert("bounds".into(), json!({"instances": "2 or 3", "steps_per_instance": M, "worker_threads": W}));
     }
     fn replay(&self, replay: &Value) -> Result<(bool, String), String> {
-        // re-run all schedules of the recorded mix
-        let point = replay["point"].as_str().unwrap_or("");
-        let mut log = String::new();
-        let mut bad = false;
-        for (i, m) in mixes().iter().enumerate() {
-            if point.contains(m.name) {
-                let migration = if m.cfgs.len() == 2 { Migration::All } else { Migration::RoundRobin };
-                let v = run_schedules(m, &Item { mix: i, migration, part: 0, parts: 1 }, None)?;
-                for f in v["found"].as_array().cloned().unwrap_or_default() {
-                    bad = true;
-                    log.push_str(&format!("    VIOLATES C18 [{}] {}\n", f["sig"].as_str().unwrap_or(""), f["detail"].as_str().unwrap_or("")));
-                }
-            }
-        }
-        Ok((bad, log))
+        crate::frame::replay_by_item(self, replay)
     }
     fn rule(&self, _tier: Tier) -> String {
         "instance mixes chosen to collide on everything shared (equal FFT sizes -> same planner cache keys, identical sinc tables, CPU-feature cache); every interleaving of the k three-step scripts (construct; two calls; [ratio change +] call) x every assignment of steps to 2 worker threads (k=3 in the quick tier: round-robin migration only); each schedule is one case; distinct = distinct (mix, interleaving) with its verdict".into()
